@@ -45,6 +45,9 @@ pub struct PaseResponder<'a, C: Crypto> {
     crypto: C,
     notify: &'a dyn AttrChangeNotifier,
     spake2p: Spake2P,
+    /// The commissioning window (identified by its mDNS id) the handshake in progress was
+    /// started under; the handshake may only proceed - and complete - under that very window
+    comm_window_id: Option<u64>,
 }
 
 impl<'a, C: Crypto> PaseResponder<'a, C> {
@@ -55,6 +58,7 @@ impl<'a, C: Crypto> PaseResponder<'a, C> {
             crypto,
             notify,
             spake2p: Spake2P::new(),
+            comm_window_id: None,
         }
     }
 
@@ -63,6 +67,7 @@ impl<'a, C: Crypto> PaseResponder<'a, C> {
             crypto,
             notify,
             spake2p <- Spake2P::init(),
+            comm_window_id: None,
         })
     }
 
@@ -139,6 +144,30 @@ impl<'a, C: Crypto> PaseResponder<'a, C> {
             return Ok(true);
         }
 
+        // The window the handshake was started under must still be open (neither closed,
+        // revoked, expired, nor replaced by another one) when the session is about to come
+        // into existence
+        let notify_mdns = || exchange.matter().transport().notify_mdns_changed();
+        let notify_change =
+            |endpt_id, cluster_id| self.notify.notify_cluster_changed(endpt_id, cluster_id);
+
+        let same_comm_window = exchange.with_state(|state| {
+            state
+                .pase
+                .check_comm_window_timeout(notify_mdns, notify_change)?;
+
+            Ok(state
+                .pase
+                .comm_window()
+                .is_some_and(|w| Some(w.mdns_id) == self.comm_window_id))
+        })?;
+
+        if !same_comm_window {
+            debug!("Dropping PASEPake3: the commissioning window is no longer open");
+            self.clear_session_timeout(exchange)?;
+            return Ok(true);
+        }
+
         let success = self.handle_pasepake3(exchange, session).await?;
 
         exchange.acknowledge().await?;
@@ -179,6 +208,8 @@ impl<'a, C: Crypto> PaseResponder<'a, C> {
                 state
                     .pase
                     .check_comm_window_timeout(notify_mdns, notify_change)?;
+
+                self.comm_window_id = state.pase.comm_window().map(|w| w.mdns_id);
 
                 if let Some(comm_window) = state.pase.comm_window() {
                     let src = comm_window.verifier.salt_bytes();
@@ -308,7 +339,12 @@ impl<'a, C: Crypto> PaseResponder<'a, C> {
                     .pase
                     .check_comm_window_timeout(notify_mdns, notify_change)?;
 
-                if let Some(comm_window) = state.pase.comm_window() {
+                let comm_window = state
+                    .pase
+                    .comm_window()
+                    .filter(|w| Some(w.mdns_id) == self.comm_window_id);
+
+                if let Some(comm_window) = comm_window {
                     self.spake2p.setup_verifier(
                         &self.crypto,
                         &comm_window.verifier,
